@@ -241,6 +241,15 @@ func genC17(g *Gen, idx int) *Plan {
 		if g.Bool(0.6) {
 			p.SGW.Ops = append(p.SGW.Ops, PeerOp{AtMs: at + 200 + g.Range(50, 900), Pkt: refsn.Pkt{Type: refsn.PUBREL, MsgID: mid}})
 		}
+		if g.Bool(0.5) {
+			// a second exchange finishes in between; then the PUBREL of the *older* one comes again (its
+			// PUBCOMP was lost on the way)
+			mid2 := mid + 1 + uint16(g.Intn(3))
+			p.SGW.Ops = append(p.SGW.Ops,
+				PeerOp{AtMs: at + g.Range(10, 150), Pkt: refsn.Pkt{Type: refsn.PUBLISH, TIT: refsn.TITShort, TopicID: refsn.ShortID("ab"), QoS: 2, MsgID: mid2, Data: []byte("gwq2b")}},
+				PeerOp{AtMs: at + 200 + g.Range(10, 150), Pkt: refsn.Pkt{Type: refsn.PUBREL, MsgID: mid2}},
+				PeerOp{AtMs: at + 200 + g.Range(400, 1200), Pkt: refsn.Pkt{Type: refsn.PUBREL, MsgID: mid}})
+		}
 		// the scripted gateway must not answer the client's PUBREC itself in this scenario
 		p.SGW.Rules = append(p.SGW.Rules, SGWRule{On: "PUBREC", Act: "ignore"})
 	}
